@@ -211,6 +211,14 @@ def cache_step(ctx, kind, vals, symbolic):
                 cache.BUILD_STATUS_CACHE[k].set(c, obj)
                 pre[(c, k)] = obj
     tc, tk = COMMITS[0], KEYS[0]           # the step targets (commit 0, key 0)
+    key1 = vals.get('poll_key1', False)
+    if kind in ('github_poll', 'github_status', 'github_check_suite', 'bitbucket_event'):
+        # the polled key / the key the status event was reported under is either the configured
+        # build key or another one (github_actions: listed last by the host)
+        if symbolic:
+            key1 = ctx.decide(key1)
+        if key1:
+            tk = KEYS[1]
     rep = E(vals['reported'])              # what the event / host says for the target
     rep_other = E(vals['reported_other'])  # host's report for the other key
     has_other = vals['host_has_other']
@@ -247,7 +255,7 @@ def cache_step(ctx, kind, vals, symbolic):
                     raise HTTPError(response=types.SimpleNamespace(status_code=404))
                 st = {}
                 if has_target:
-                    st[tk] = St(rep, tk, 'host')
+                    st[KEYS[0]] = St(rep, KEYS[0], 'host')      # the external status context
                 return types.SimpleNamespace(status=st, commit=tc)
 
             def runs_get(client, **kw):
@@ -288,6 +296,7 @@ def cache_step(ctx, kind, vals, symbolic):
         for k in KEYS:
             post[(c, k)] = cache.BUILD_STATUS_CACHE[k]._dict.get(c)
     cache.BUILD_STATUS_CACHE.clear()
+    cache_step.last_key = tk
     return answer, job, pre, post
 
 
@@ -299,7 +308,7 @@ def cache_vars():
             v['cached_%d_%d' % (ci, ki)] = z3.Int('cached_%d_%d' % (ci, ki))
     for k in ('reported', 'reported_other'):
         v[k] = z3.Int(k)
-    for k in ('host_has_other', 'host_404', 'host_has_target'):
+    for k in ('host_has_other', 'host_404', 'host_has_target', 'poll_key1'):
         v[k] = z3.Bool(k)
     return v
 
@@ -332,21 +341,39 @@ def cache_harness(kind):
             else:
                 conds.append(z3.Implies(was_green, state_term(after.state) == 0))
             labels.append('cached SUCCESSFUL for %s/%s downgraded or dropped' % ck)
-        tck = (COMMITS[0], KEYS[0])
+        tk = cache_step.last_key
+        tck = (COMMITS[0], tk)
         green = state_term(pre[tck].state) == 0 if tck in pre else z3.BoolVal(False)
         if kind.endswith('_poll'):
             # 2. answer: SUCCESSFUL if cached green, else what the host reports now
             a = state_term(answer)
-            if kind == 'github_poll':
+            if kind == 'github_poll' and tk == KEYS[1]:
+                host = z3.If(v['host_404'], 3, v['reported_other'])
+            elif kind == 'github_poll':
                 host = z3.If(z3.Or(v['host_404'], z3.Not(v['host_has_target'])), 3, v['reported'])
             else:
                 host = z3.If(v['host_404'], 3, v['reported'])
             conds.append(a == z3.If(green, 0, host))
             labels.append('poll answer differs from cached-green-or-host-report')
+            # 4. what was answered SUCCESSFUL is remembered (it must keep being answered
+            #    SUCCESSFUL whatever the host reports later)
+            after = post.get(tck)
+            conds.append(z3.Implies(a == 0, z3.BoolVal(False) if after is None else state_term(after.state) == 0))
+            labels.append('a SUCCESSFUL answer was not remembered in the cache')
         else:
             # 3. a job is produced iff the event is not INPROGRESS
             conds.append(z3.BoolVal(job is not None) == (v['reported'] != 2))
             labels.append('CommitJob produced iff event state != INPROGRESS')
+            # 5. the event is recorded under the key it was reported with and nowhere else
+            for ck in [(c, k) for c in COMMITS for k in KEYS]:
+                if ck == tck:
+                    after = post.get(ck)
+                    conds.append(z3.Or(green, z3.BoolVal(after is not None) if after is None
+                                       else state_term(after.state) == v['reported']))
+                    labels.append('status event not recorded under its own key')
+                else:
+                    conds.append(z3.BoolVal(post.get(ck) is pre.get(ck)))
+                    labels.append('status event changed the cache entry of another key / commit')
         ctx.stats.obligations += len(conds)
         for cnd, lab in zip(conds, labels):
             r, m = ctx.sat_model(z3.Not(cnd))
@@ -368,19 +395,32 @@ def cache_concrete(kind, vals):
             after = post.get(ck)
             if after is None or after.state != 'SUCCESSFUL':
                 bad.append('cached SUCCESSFUL for %s/%s downgraded or dropped' % ck)
-    tck = (COMMITS[0], KEYS[0])
+    tk = cache_step.last_key
+    tck = (COMMITS[0], tk)
     green = tck in pre and pre[tck].state == 'SUCCESSFUL'
     if kind.endswith('_poll'):
-        if kind == 'github_poll':
+        if kind == 'github_poll' and tk == KEYS[1]:
+            host = 'NOTSTARTED' if vals['host_404'] else STATES[vals['reported_other']]
+        elif kind == 'github_poll':
             host = 'NOTSTARTED' if (vals['host_404'] or not vals['host_has_target']) \
                 else STATES[vals['reported']]
         else:
             host = 'NOTSTARTED' if vals['host_404'] else STATES[vals['reported']]
         if answer != ('SUCCESSFUL' if green else host):
             bad.append('poll answer differs from cached-green-or-host-report')
+        after = post.get(tck)
+        if answer == 'SUCCESSFUL' and (after is None or after.state != 'SUCCESSFUL'):
+            bad.append('a SUCCESSFUL answer was not remembered in the cache')
     else:
         if (job is not None) != (STATES[vals['reported']] != 'INPROGRESS'):
             bad.append('CommitJob produced iff event state != INPROGRESS')
+        for ck in [(c, k) for c in COMMITS for k in KEYS]:
+            if ck == tck:
+                after = post.get(ck)
+                if not green and (after is None or after.state != STATES[vals['reported']]):
+                    bad.append('status event not recorded under its own key')
+            elif post.get(ck) is not pre.get(ck):
+                bad.append('status event changed the cache entry of another key / commit')
     return bad
 
 
